@@ -289,6 +289,13 @@ class StrFold:
                 return mk_bool(pred(ch if ch is not None else "7"))
         if s0 is None:
             return None
+        # ---- equality of texts
+        if m in ("eq", "ne") and len(args) == 2 and as_str(args[1]) is not None:
+            r = self.equal(s0, as_str(args[1]))
+            if r is None:
+                self.unknown.append("comparison of %s with %s" % (render(s0), render(as_str(args[1]))))
+                return None
+            return mk_bool(r == (m == "eq"))
         if not (("str" in c) or ("String" in c) or ("string" in c)):
             return None
         pat = args[1][1] if len(args) > 1 and isinstance(args[1], tuple) and args[1][0] == "lit" and isinstance(args[1][1], str) else None
@@ -389,6 +396,27 @@ class StrFold:
                 return ("v", "Ok", [v])
             return None
         self.unknown.append("%s on an abstract string" % m)
+        return None
+
+    def equal(self, a, b):
+        """True / False / None: identical atoms are equal; two literal texts are compared; a non-zero leading digit differs from the text "0"; different constant lengths differ"""
+        if a[1] == b[1]:
+            return True
+        la, lb = all(x[0] in ("c", "sgn") for x in a[1]), all(x[0] in ("c", "sgn") for x in b[1])
+        if la and lb:
+            return "".join(text_of(x) for x in a[1]) == "".join(text_of(x) for x in b[1])
+        na, nb = self.length(a), self.length(b)
+        if na[0] == "lit" and nb[0] == "lit" and na[1] != nb[1]:
+            return False
+        for x, y in ((a, b), (b, a)):
+            if len(x[1]) == 1 and x[1][0][0] == "d" and len(x[1][0]) > 3 and x[1][0][3] == "nz" and all(t[0] == "c" for t in y[1]) and "".join(t[1] for t in y[1]).strip("0") == "":
+                return False
+            # a text containing a character the other cannot contain
+            fx, fy = flat(x[1]), flat(y[1])
+            if all(t[0] == "ch" for t in fy):
+                lits = {t[1] for t in fx if t[0] == "ch" and not t[1].isdigit()}
+                if lits - {t[1] for t in fy}:
+                    return False
         return None
 
     def repeat(self, text, cnt):
